@@ -9,7 +9,7 @@ SPEC = {
     "level_note": "consensus rules V12 (current mainnet); synthetic epoch results; no libp2p; replicas share one in-memory content store",
     "rule": "case = one proposed block received by all replicas; distinct_nontrivial = distinct proposals (block hash) that carry >= 1 tx "
             "AND for which the proposer's pool offered more txs than were included (>= 1 tx filtered out while building)",
-    "jobs": [Job("chain", "verifsim", "^TestVerifC02$", shards=(8, 16), timeout=(900, 3600))],
+    "jobs": [Job("chain", "verifsim", "^TestVerifC02$", shards=(8, 16), timeout=(900, 7200))],
     "floors": {"proposals_with_filtered_txs": (20, 200), "burst_txs_admitted": (50, 500),
                "kind:proposed+IdentityUpdate+ValidationFinished": (2, 20), "included:type:Delegate": 5, "included:type:Kill": 2,
                "included:type:Deploy": 5, "included:type:Call": 5, "included:fat:Send": 50, "proposals_near_or_over_gas_cap": 3, "exact_cap_proposals_with_tail_tx": (30, 300),
